@@ -465,6 +465,22 @@ where
             unsafe { entry.mutex.unlock() };
         }
     }
+
+    fn pre_reorder(&self, _manager: &M) {
+        // Cached results may depend on the variable order and on the number of
+        // levels (e.g., ZBDD operations that embed tautologies over the lower
+        // levels). Reordering is wrapped in a `pre_gc()` / `post_gc()` pair,
+        // but adding levels is not, so we need to clear the cache here.
+        for entry in &*self.0 {
+            // If the entry is locked, then it has been cleared and locked by
+            // `pre_gc()` (we have exclusive access to the manager, so there are
+            // no concurrent `get()`/`add()` calls). We must not block in this
+            // case.
+            if let Some(mut entry) = entry.try_lock() {
+                entry.clear();
+            }
+        }
+    }
 }
 
 impl<M, O, H, const ENTRY_CAP: usize> fmt::Debug for DMApplyCache<M, O, H, ENTRY_CAP>
